@@ -22,7 +22,8 @@ V = os.path.dirname(os.path.dirname(os.path.abspath(__file__)))
 SPEC = os.path.join(V, "spec")
 REPO = os.environ.get("VERIF_REPO", "/repo")
 BUILD = os.environ.get("VERIF_BUILD", os.path.join(V, ".build"))
-BIN = os.path.join(BUILD, "bin")
+BID = str(os.getpid())
+BIN = os.path.join(BUILD, "bin." + BID)
 TLA_CP = "/opt/veriftools/tla/tla2tools.jar:/opt/veriftools/tla/CommunityModules-deps.jar"
 NCPU = os.cpu_count() or 4
 
@@ -42,6 +43,8 @@ def scratch(prefix="verif-"):
 
 
 def _cleanup():
+    for d in (BIN, os.path.join(BUILD, "harness." + BID)):
+        shutil.rmtree(d, ignore_errors=True)
     for d in _scratch:
         shutil.rmtree(d, ignore_errors=True)
 
@@ -61,6 +64,7 @@ def build(race=False):
     env = goenv()
     env["VERIF_REPO"] = REPO
     env["VERIF_BUILD"] = BUILD
+    env["VERIF_BUILD_ID"] = BID
     if race:
         env["VERIF_RACE"] = "1"
     p = subprocess.run([os.path.join(V, "orch", "build.sh")], env=env, capture_output=True, text=True)
@@ -170,6 +174,7 @@ def parse_tla_set_of_notes(out):
 
 MODULE_CONSTS = {"ApiTotalTrace": "  Full = TRUE\n", "LockTrace": "  DB <- TraceDBs\n",
                  "CodecTrace": "  Pairs = FALSE\n  HugeSizes = FALSE\n",
+                 "MergeTrace": "  Keys <- TKeys\n  MaxUser = 0\n  Cap = 1\n  Sw = {}\n",
                  "CommitTrace": "  MaxTx = 3\n  MaxRecs = 200\n  Cap = 100000\n  Sw = {\"SyncFaultOnMark\"}\n"}
 
 
